@@ -1,9 +1,29 @@
 SPEC = dict(
     props_file="C09",
     legs=[dict(family="bloom", oracles=["prop_ok"], profiles=["debug", "release"], n_quick=150, n_thorough=1500)],
-    level_text="placeholder",
-    level_note="placeholder",
-    technique="Coq proof by invariant over histories + differential correspondence model vs crate",
-    trusted=[],
-    assumptions=[],
+    level_text="Theorems (Props/C09.v) over an executable model of bloom/sketch.rs + bloom/builder.rs, for arbitrary digests (h0, h1), "
+               "every configuration in the builder's ranges and ALL histories (expressions over insert, contains_and_insert, union, "
+               "intersect, invert, reset, serialize+deserialize): the bit array is exactly the history's set of positions "
+               "((h0 + i*h1) mod 2^64 >> 1) mod capacity, i = 1..num_hashes; contains = 'all positions in the set', hence no false "
+               "negatives (inserted / either operand of a union / both operands of an intersect / after the codec); bits_used = "
+               "number of set positions = word popcount after every operation (invert: capacity - n); indices < capacity; "
+               "deserialize(serialize f) = Ok f for every well-formed filter and every reachable filter is well formed. The model is "
+               "tied to the crate by running both on the same generated histories (sizes 1..2^16 bits incl. non-multiples of 64, "
+               "1..16 hashes, several seeds, i64 items, up to 6 filters per case, debug + release) and comparing every observation "
+               "(contains, bits_used, capacity, full serialized images, deserialization of foreign/dirty/damaged images), and the "
+               "property itself (a position set kept independently of the model) is evaluated on the crate's observations.",
+    level_note="No theorem for the statistical half of C09 (measured false-positive rate of with_accuracy(n, p) near p): it is a claim "
+               "about the distribution of XXH64 outputs and about ln-based sizing. It is only measured as a test: bloom-fpp cases build "
+               "with_accuracy(n, p), insert n items, probe 4n never-inserted items and require the count to equal the position-set "
+               "prediction and to stay below 5*p*probes + 10; the builder's sizing is compared with the generator's recomputation. "
+               "The digests h0 = XXH64(item, seed), h1 = XXH64(item, h0) are inputs of the model (hasher: C16); literals inside "
+               "function bodies (>> 1, >> 6, & 63, loop start 1) are not translated, they are covered by the correspondence check.",
+    technique="Coq proof by representation invariant (Rep f S: filter f denotes position set S) over an inductive type of histories "
+              "+ codec round-trip proof + differential correspondence model vs crate + Spec-level oracle",
+    trusted=["digests h0, h1 are supplied by tools/pyref.py xxh64 (reference XXH64, cross-checked in C16); the crate hashes the i64 item "
+             "itself (8 little-endian bytes through std's Hash impl)",
+             "the false-positive-rate claim is statistical and has no theorem (DESIGN.md section 9); measured only",
+             "with_accuracy's ln-based sizing has no Coq counterpart; the generator recomputes it with Python's math.log"],
+    assumptions=["configuration within the builder's documented ranges (1 <= num_bits <= MAX_NUM_BITS, 1 <= num_hashes <= 32767, u64 seed)",
+                 "union / intersect operands are compatible (same word count, num_hashes, seed); otherwise the crate panics, as modelled"],
 )
